@@ -323,6 +323,12 @@ func (w *Worker) runPath(prefix []int32) {
 		mode |= EnableTracing
 	}
 	i := newInterpreter(ex.Prog, w, p, ex.Sizes, mode)
+	p.interp = i
+	if trailOn {
+		defer func() {
+			fmt.Fprintf(os.Stderr, "---- path %v\n%s\n", p.taken, strings.Join(p.trail, "\n"))
+		}()
+	}
 	var perr any
 	func() {
 		defer func() {
